@@ -25,4 +25,6 @@ func checkC01(r *Run) {
 	c.ruleTaskNeverDiscards(r3)
 	c.ruleFailedKept(r4, nil)
 	c.ruleReconnectResumes(r8)
+	c.ruleWrapKeepsHandle(r5)
+	c.ruleTaskContext(r4)
 }
